@@ -34,6 +34,12 @@ NestGrid(lazy) == {[ep |-> "LinkState.unpack", b |-> Tlv22(t, Zeros(f) \o Rep(n,
                      t \in LsAttrTypes, f \in {0, 4, 8, 16, 20, 22, 24, 32}, n \in {10, 18}}
                   \cup {[ep |-> "LinkState.unpack", b |-> Tlv22(t, Zeros(f) \o Tlv22(t, Zeros(f) \o Rep(8, Tlv22(t, Zeros(f) \o Rep(8, Tlv22(t, Zeros(f)))))))] :
                      t \in LsAttrTypes, f \in {0, 8, 22}}
+\* nesting in DEPTH: a TLV whose value is a fixed part followed by one TLV of the same type, d levels deep, the innermost one
+\* empty, one octet long or just the fixed part (a decoder that retries an inner TLV after a failure does work exponential in d)
+RECURSIVE Deep(_, _, _, _)
+Deep(t, f, d, inner) == IF d = 0 THEN Tlv22(t, inner) ELSE Tlv22(t, Zeros(f) \o Deep(t, f, d - 1, inner))
+DeepGrid(lazy) == {[ep |-> "LinkState.unpack", b |-> Deep(t, f, d, inner)] :
+                     t \in LsAttrTypes, f \in {0, 8, 22}, d \in {2, 8, 14, 18, 22, 40}, inner \in {<<>>, <<0>>, Zeros(8), Zeros(22)}}
 \* OPEN messages (body after the header) carrying one capability of every code the decoder interprets (and unknown ones)
 \* with every value length 0..16 x body pattern, alone and after a valid multiprotocol capability, one parameter each or
 \* packed together; plus capability / parameter length fields that lie
@@ -92,7 +98,7 @@ ShortInputs(lazy) == {[ep |-> "*", b |-> s] : s \in Strings(MAXSHORT)}
 
 VARIABLE vec
 Vecs == CASE FAMILY = "lsgrid" -> LsGrid(0) [] FAMILY = "sidgrid" -> SidGrid(0) [] FAMILY = "short" -> ShortInputs(0)
-          [] FAMILY = "nestgrid" -> NestGrid(0) [] FAMILY = "fslen" -> FsLenGrid(0) [] FAMILY = "capgrid" -> CapGrid(0) [] FAMILY = "attrgrid" -> AttrGrid(0) [] FAMILY = "mpgrid" -> MpGrid(0) [] FAMILY = "lsnlri" -> LsNlriGrid(0)
+          [] FAMILY = "nestgrid" -> NestGrid(0) [] FAMILY = "fslen" -> FsLenGrid(0) [] FAMILY = "capgrid" -> CapGrid(0) [] FAMILY = "attrgrid" -> AttrGrid(0) [] FAMILY = "mpgrid" -> MpGrid(0) [] FAMILY = "lsnlri" -> LsNlriGrid(0) [] FAMILY = "deepgrid" -> DeepGrid(0)
 Init == vec \in Vecs
 Next == FALSE /\ UNCHANGED vec
 Emit == PrintT("@W " \o ToJson(vec))
